@@ -562,7 +562,8 @@ CHECK = {
             "group aimed at the singular-value threshold; raw op sequences (repeated estimates, weights applied twice, partial "
             "rewrites, estimate-size changes, out-of-range rows: undefined ops must be undefined on both sides). "
             "non-trivial = at least one finite estimate was produced",
-    "trusted": ["hand-written model coq/LsModel.v tied by differential execution (this run)",
+    "trusted": ["hand-written model coq/LsModel.v tied to the source by translate/tr_C07_ls.py + coq/SrcTieC07.v (every member function, every "
+                "dictionary) and by differential execution (this run); trusted there: the translator and the vocabulary coq/SrcEigenDyn.v",
                 "Eigen LDLT / JacobiSVD are oracles with a contract (premise of the theorems); realised for execution by unverified "
                 "Gallina Gauss-Jordan / one-sided Jacobi whose contract residual is measured on every call (max in coverage)",
                 "extraction (ExtrOcamlBasic), ocaml/numf.ml, ocaml/drv_C07.ml", "harness/C07.cpp, python oracle (fractions.Fraction) in checks/C07.py",
@@ -573,7 +574,16 @@ CHECK = {
                     "contents of the buffers after a reallocation are unspecified (model: explicit fill value; harness never reads them)"],
     "run_timeout": 900,
     "manifest": {
-        "text": "Coq theorems about a state-machine model of LeastSquares<T> (buffers that grow but never shrink, in-place weighting, "
+        "text": "SYNTACTIC TIE: translate/tr_C07_ls.py regenerates on every run, from the clang AST of the instantiated members of "
+                "LeastSquares<double> (checked identical for <float>), the record of the ten data members and one Gallina state transformer per "
+                "member function (three constructors, setEstimateSize, setDataSize, both setPreconditionner overloads, getJ/getY/getW as "
+                "references, computeJTJ_, computeJTY_, weightJAndY_, estimateUsingCholeskyDecomposition, estimateUsingSVD, weightedEstimate, "
+                "computeEstimateCovariance; counted loops with run-time bounds = folds over seq; coq/gen/SrcLs.v); coq/SrcTieC07.v proves each "
+                "generated transformer EQUAL to the operation of LsModel.v for every numeric dictionary (C07_source_tie_*: the nested loops of "
+                "computeJTJ_/computeJTY_ leave the dot products over the first dataSize_ rows whatever the buffers held; grow-only setDataSize; "
+                "the three estimate paths incl. the relative SVD threshold; a simulation theorem for EVERY op sequence; history independence and "
+                "the Cholesky minimiser theorem restated on the generated member functions). "
+                "Coq theorems about a state-machine model of LeastSquares<T> (buffers that grow but never shrink, in-place weighting, "
                 "both estimate paths with Eigen's solvers as contract-bound oracles): normal equations, Pythagoras => global and unique "
                 "minimiser; weighted variant proved in full (row r of J and Y scaled by w_r in place => weighted normal equations "
                 "J^T W^2 (J z - Y) = 0 and unique minimiser of sum (w_r r_r)^2 on the rows as written; a second call without rewriting "
@@ -584,8 +594,13 @@ CHECK = {
                 "problem); tied to the source by running the extracted "
                 "model against the real class on "
                 "generated op sequences, plus an exact-rational normal-equation oracle on the implementation's outputs.",
-        "note": "Trusted: Coq kernel, real-number axioms, the hand-written model (tied only by differential execution), extraction, float "
-                "dictionaries, harness and oracle. Eigen's decompositions are not verified: they appear as hypotheses.",
-        "technique": "Coq proof (linear algebra over R, induction over op lists) + extracted-model correspondence run + exact-rational oracle",
+        "note": "Trusted: Coq kernel, real-number axioms, the translator tr_C07_ls.py and its vocabulary coq/SrcEigenDyn.v (the reading of each "
+                "dynamic-size Eigen operation: resize destructive with unspecified contents, rows()/cols(), col/head/dot, operator() with run-time "
+                "indices, products, transpose, asDiagonal, array *=; C++ int/size_t read as nat, no wrap-around; Eigen's summation order not "
+                "modelled), the shape premises on the oracles (ldlt_dims, svd_dims) and on the preconditioner argument (run_dims), extraction, "
+                "float dictionaries, harness and oracle. The model is now tied to the source syntactically (every member function) AND by "
+                "differential execution. Eigen's decompositions are not verified: they appear as hypotheses (oracle arguments of the generated terms).",
+        "technique": "Coq proof (linear algebra over R, induction over op lists) + source translator with tie lemmas for every member function "
+                     "(generated folds proved equal to the model by loop invariants) + extracted-model correspondence run + exact-rational oracle",
     },
 }
